@@ -147,7 +147,11 @@ fn emacs_key(rng: &mut Rng, out: &mut Vec<String>, helper: bool, brackets: bool)
     }
 }
 
-const PROMPTS: &[&str] = &["> ", "> ", "", "p\n", "prompt> ", "漢字> ", "é» ", "a-rather-long-prompt>> ", "1\n2> ", "abcdefghij"];
+const PROMPTS: &[&str] = &[
+    "> ", "> ", "", "p\n", "prompt> ", "漢字> ", "é» ", "a-rather-long-prompt>> ", "1\n2> ", "abcdefghij",
+    // colour sequences (zero width), every digit and `;` in the parameters
+    "\x1b[91m> \x1b[0m", "\x1b[38;5;196mx\x1b[39m> ", "\x1b[1;32mok\x1b[0m ", "\x1b[7m\x1b[48;5;240m$\x1b[m ",
+];
 
 const WIDTHS_QUICK: &[u16] = &[2, 3, 4, 5, 6, 7, 8, 9, 10, 11, 12, 13, 14, 15, 16, 20, 24, 31, 40, 80];
 
